@@ -57,6 +57,7 @@ fn main() {
             tr.ev(json!({"ev":"Call","name":name,"ok":ok,"cls":cls,"st":m.stop_reason().to_string(),"er":m.is_error() as u32,"ms":ms(t0)}));
             tr.flush();
         };
+        let ok = ok && case["tp_only"].as_u64().unwrap_or(0) == 0;
         if ok {
             if let Some(script) = case["script"].as_array() {
                 for t in script {
@@ -148,7 +149,7 @@ fn main() {
             let built = vh::sess::grammar_from_desc(&gram).and_then(|tg| cfg.factory.create_parser(tg));
             if let Ok(mut tp) = built {
                 use std::panic::{catch_unwind, AssertUnwindSafe};
-                let mut tcall = |tr: &mut Trace, name: &str, r: std::thread::Result<Result<(), String>>, tp: &llguidance::TokenParser, t0: Instant| {
+                let tcall = |tr: &mut Trace, name: &str, r: std::thread::Result<Result<(), String>>, tp: &llguidance::TokenParser, t0: Instant| {
                     let (ok, cls) = match &r {
                         Ok(Ok(_)) => (1, String::new()),
                         Ok(Err(e)) => (0, err_class(e)),
